@@ -69,10 +69,19 @@ def judge(cfg, obs):
         return ('rx', e[1], e[2])
     nw = [norm(e) for e in wire]
     stale = set(cfg.get('stale', ()))
+    lose = set(cfg.get('lose', ()))
     i = 0
     while i < len(nw):
         a = nw[i]
         ok = a[0] == 'tx'
+        # the reply to this datagram is lost: the same thread has to retransmit (a new datagram)
+        while ok and a[2] in lose and wire[i][0] == 'tx' and i + 1 < len(nw):
+            nxt = nw[i + 1]
+            if nxt[0] == 'tx' and nxt[1] == a[1]:
+                i += 1
+                a = nxt
+            else:
+                ok = False
         j = i + 1
         if ok and a[2] in stale and wire[i][0] == 'tx':
             # the BMC sent an unrelated frame (payload n + 100) first: the same thread has to read past it
@@ -202,8 +211,8 @@ def term(cfg, obs):
         for kind, val in obs['results'][t]:
             o.append(C.c_opt(C.c_N(bytes.fromhex(val)[1])) if kind == 'ok' else 'None')
         outs.append(C.c_list(o))
-    return 'chk_run %d %s %s %d %d %s %s %s %s %s %d %d %s' % (
-        cfg.get('max_retries', 0), C.c_bool(cfg.get('active', True)), lN(cfg.get('stale', [])), cfg['nsn0'], cfg['s0'], progs,
+    return 'chk_run %d %s %s %s %d %d %s %s %s %s %s %d %d %s' % (
+        cfg.get('max_retries', 0), C.c_bool(cfg.get('active', True)), lN(cfg.get('stale', [])), lN(cfg.get('lose', [])), cfg['nsn0'], cfg['s0'], progs,
         lN(obs['model_sched']), C.c_list(tr), C.c_list(wire), C.c_list(outs),
         obs['final_nsn'], obs['final_sseq'], C.c_bool(obs['lock_owner'] is None))
 
@@ -211,10 +220,16 @@ def term(cfg, obs):
 # ----------------------------------------------------------------------------
 # schedules
 # ----------------------------------------------------------------------------
+def tid_of(c):
+    """a choice is a thread id, or -(tid + 1) = let that thread's timed acquire time out"""
+    return c if c >= 0 else -c - 1
+
+
 def preemptions(taken, enabled_log):
     n = 0
     for j in range(1, len(taken)):
-        if taken[j] != taken[j - 1] and taken[j - 1] in enabled_log[j][0]:
+        prev = tid_of(taken[j - 1])
+        if tid_of(taken[j]) != prev and prev in enabled_log[j][0]:
             n += 1
     return n
 
@@ -240,7 +255,8 @@ def enumerate_schedules(cfg, bound, cap=None):
                 # pre-emptions of the candidate prefix (enabled sets up to i are those of this run)
                 p = 0
                 for j in range(1, i + 1):
-                    if cand[j] != cand[j - 1] and cand[j - 1] in elog[j][0]:
+                    prev = tid_of(cand[j - 1])
+                    if tid_of(cand[j]) != prev and prev in elog[j][0]:
                         p += 1
                 if p <= bound:
                     stack.append(cand)
@@ -251,7 +267,8 @@ def random_choices(rng, nthreads, n, pswitch):
     for _ in range(n):
         if rng.random() < pswitch:
             cur = rng.randrange(nthreads)
-        out.append(cur)
+        # now and then: let the timed acquire of some thread time out (a no-op unless one is waiting)
+        out.append(-(rng.randrange(nthreads) + 1) if rng.random() < 0.03 else cur)
     return out
 
 
@@ -279,6 +296,11 @@ def configs(quick):
         # max_retries >= 1 lets the code read past it (the branch repaired by F4)
         ('2x2-stale', {'threads': [raw(GDI, GDI), ka(2)], 'nsn0': 63, 's0': 9, 'auth': 0,
                        'max_retries': 1, 'stale': [0, 1, 3]}),
+        # the reply to the listed datagrams is lost (socket.timeout): the code packs and sends again
+        ('2x1-lost', {'threads': [raw(GDI), ka(1)], 'nsn0': 5, 's0': 100, 'auth': 2,
+                      'max_retries': 1, 'lose': [0]}),
+        ('2x2-lost', {'threads': [raw(SEL, GDI, target=0x82), ka(2)], 'nsn0': 62, 's0': WRAP - 2, 'auth': 0,
+                      'max_retries': 1, 'lose': [1, 4]}),
     ]
     if not quick:
         cs += [
@@ -313,6 +335,9 @@ def run(ctx):
         if dup:
             hist['schedules with two wire-identical IPMB headers (duplicate rq_seq)'] = \
                 hist.get('schedules with two wire-identical IPMB headers (duplicate rq_seq)', 0) + 1
+        if cfg.get('lose') and any(k == 'tmo' for _, k, _ in obs['trace']):
+            hist['schedules with a lost reply (socket.timeout, re-pack, re-send)'] = \
+                hist.get('schedules with a lost reply (socket.timeout, re-pack, re-send)', 0) + 1
         nst = sum(1 for e in obs['wire'] if e[0] == 'rx' and e[5] >= 100)
         if nst:
             hist['schedules in which an unrelated frame was read and dropped'] = \
@@ -362,7 +387,7 @@ def run(ctx):
             k += 1
         per_cfg[name] = {'schedules': k, 'capped': k >= cap, 'preemption_bound': b}
     # random schedules at source-line granularity
-    nrand = 200 if q else 3000
+    nrand = 150 if q else 3000
     cfgs = configs(False)
     for i in range(nrand):
         name, cfg = cfgs[rng.randrange(len(cfgs))]
@@ -393,7 +418,9 @@ def run(ctx):
     res.exhaustive = False
     res.assumptions = [
         'in-order reference BMC that answers every datagram, optionally preceded by ONE unrelated frame (stale rq_seq) '
-        'with max_retries >= 1 (no loss, no delay, no frames outside an exchange: those are C04)',
+        'with max_retries >= 1, optionally losing the reply to listed datagrams with max_retries >= 1 '
+        '(no delay, no frames outside an exchange: those are C04); exchange theorems assume no loss (bmc_ok), '
+        'the sequence-number theorems assume nothing about the BMC',
         'direct (non-bridged) targets; default rx_filter options',
         'atomicity of one access to next_sequence_number / lock / socket; CPython byte code and the GIL are not modelled',
     ]
